@@ -35,7 +35,7 @@ ANCHORS = ['pfhedge.nn.modules.hedger:Hedger.compute_hedge',
            'pfhedge.features.container:FeatureList.get',
            'pfhedge.features.features:Barrier.get']
 DECIDING = ["feature.step_equals_column", "branches.agree", "prev_hedge.is_last_output", "prev_hedge.zero_at_step0"]
-REQUIRED_BRANCHES = ["H>1", "second_call_same_shape", "second_call_other_paths", "barrier.down.nonmonotone"]
+REQUIRED_BRANCHES = ["underlier_on_another_grid", "H>1", "second_call_same_shape", "second_call_other_paths", "barrier.down.nonmonotone"]
 
 
 def drv_features(ctx, k, rng):
@@ -46,6 +46,11 @@ def drv_features(ctx, k, rng):
         derivative.list(P.bs_pricer, cost=1e-3)
     n = int(pick(rng, [1, 4]))
     derivative.simulate(n_paths=n)
+    if rng.random() < 0.3:
+        # the underlier is shared (e.g. with a listed hedge of another maturity) or simulated directly: its series need not have the
+        # derivative's own number of steps
+        stock.simulate(n_paths=n, time_horizon=int(pick(rng, [1, 3, 6, 9])) * stock.dt)
+        ctx.branch("underlier_on_another_grid")
     spot = stock.spot
     T = spot.shape[1]
     bdt = spot.dtype
